@@ -145,8 +145,10 @@ def main(argv=None):
         print('no check registered for', prop)
         return 3
     tier = a.tier
-    timeout_ms = 10000 if tier == 'quick' else 120000
-    str_timeout_ms = 20000 if tier == 'quick' else 120000
+    # budgets sized so that a verdict does not flip when all cores are busy (almost every query
+    # answers in well under a second; the slowest discharged one takes ~12 s on an idle machine)
+    timeout_ms = 30000 if tier == 'quick' else 120000
+    str_timeout_ms = 60000 if tier == 'quick' else 180000
     os.makedirs(os.path.join(HERE, 'evidence'), exist_ok=True)
     os.makedirs(os.path.join(HERE, 'replays'), exist_ok=True)
 
